@@ -209,6 +209,11 @@ def callOfName : String → Option Locks.Call
 def runLOCKS (toks : List String) : String :=
   match toks with
   | [fxs, call, cfg, tk] =>
+    if call = "ticker_loop" then
+      -- one iteration of the ticker thread; the condvar wait happens while the stop flag is held
+      " ".intercalate ((Locks.tickerIteration (cfg = "multi")).flatMap (fun a =>
+        if a = Locks.LAct.acq Locks.LockClass.C then [lactName a, "wait"] else [lactName a]))
+    else
     match callOfName call with
     | some c => " ".intercalate ((Locks.program (if fxs = "FX=current" then Locks.currentF8 else fxs.toList.contains 'h') c (cfg = "multi") (tk = "ticker")).map lactName)
     | none => "bad-op"
